@@ -624,7 +624,10 @@ class Interp:
             return self.model.misc_attr(self, obj, attr, node)
         # concrete python value
         try:
-            return _PyBound(obj, attr, getattr(obj, attr))
+            val = getattr(obj, attr)
+            if not callable(val):
+                return val
+            return _PyBound(obj, attr, val)
         except AttributeError:
             raise AnalysisError(f'attribute {attr} of {type(obj).__name__} at {self.where(node)}') from None
 
